@@ -28,7 +28,7 @@ func miceCfg(enc string, extra ...gate.Assumption) gcfg {
 }
 
 func checkC14(e *Env) {
-	e.R.Explanation = "Decided (narrow structural necessary conditions of C14; the behaviour — decode(encode(p)) == p and equality with the draft's recursive definition for every payload — is NOT decided): stream layout: the 8-byte big-endian record size is written first (not at all for the empty payload of draft-03), then for every proof in order its record, preceded by the proof itself for all but the first; the record written is buf[i*rs : min((i+1)*rs, len(buf))]; proof chain: the last record (i == 0 of the backward loop) hashes its bytes then 0x00, every other record hashes its rs bytes, then the proof of its successor (index rec+1 where rec is the index the result is stored at), then 0x01; the digest returned is FormatDigestHeader(proofs[0]) = ContentEncoding \"=\" base64(proof) with the per-draft alphabet (draft-02 raw URL, draft-03 standard), the same alphabet and algorithm name parseDigestHeader uses; empty payload: draft-03 returns the digest of SHA-256(0x00) and writes nothing, draft-02 encodes one (empty) record; the record count, evaluated by constant propagation on a grid of (length, record size) pairs covering both residue classes and the boundary, is ceil(len/rs) — this last obligation is sampling, not a proof. Decoder-side layout agreement is C15's. " +
+	e.R.Explanation = "Decided (narrow structural necessary conditions of C14; the behaviour — decode(encode(p)) == p and equality with the draft's recursive definition for every payload — is NOT decided): stream layout: the 8-byte big-endian record size is written first (not at all for the empty payload of draft-03), then for every proof in order its record, preceded by the proof itself for all but the first; the record written is buf[i*rs : min((i+1)*rs, len(buf))]; proof chain: the last record (i == 0 of the backward loop) hashes its bytes then 0x00, every other record hashes its rs bytes, then the proof of its successor (index rec+1 where rec is the index the result is stored at), then 0x01; the digest returned is FormatDigestHeader(proofs[0]) = ContentEncoding \"=\" base64(proof) with the per-draft alphabet (draft-02 raw URL, draft-03 standard), the same alphabet and algorithm name parseDigestHeader uses; empty payload: draft-03 returns the digest of SHA-256(0x00) and writes nothing, draft-02 encodes one (empty) record; the record count, evaluated by constant propagation on a grid of (length, record size) pairs covering both residue classes and the boundary, is ceil(len/rs) — this last obligation is sampling, not a proof. the decoder constructor refuses a stream only for an unparsable digest header, an unreadable record size, a record size of 0 or above the caller's limit, or an empty stream whose proof is not SHA-256(0x00) (no other rejecting branch). Decoder-side layout agreement is C15's. " +
 		"Not decided: the round trip and digest equality for all payloads and record sizes (value-level); record sizes < 1."
 	e.R.RuleText = "emission-order rule in the specialised CFG (draft, emptiness, loop position); provenance of the written slices and of the hash inputs; E7 tables per draft; constant propagation of the record-count expression on a (len, rs) grid"
 	enc := e.fn("signedexchange/mice.(Encoding).Encode")
@@ -193,6 +193,17 @@ func checkC14(e *Env) {
 			}
 		}
 	}
+	// the decoder refuses the encoder's stream on no other ground than the listed ones
+	nd := e.fn("signedexchange/mice.(Encoding).NewDecoder")
+	tTop := "call:(mice.Encoding).parseDigestHeader(param:enc,param:digestHeaderValue)#0"
+	rejectionsListed(e, "REJECT", nd, gate.Outcome{Kind: gate.ErrNil, Idx: 1}, noCfg, []gate.Gate{
+		gate.CallOK("N.digest", "(mice.Encoding).parseDigestHeader", "param:enc", "param:digestHeaderValue"),
+		gate.CallOK("N.read-size", "binary.Read", "param:r", "global:binary.BigEndian", "local:recordSize"),
+		gate.Cmp("N.nonzero", "local:recordSize", token.NEQ, "const:0"),
+		gate.Cmp("N.max", "local:recordSize", token.LEQ, "param:maxRecordSize"),
+		gate.CallBool("N.empty-valid", "mice.validateRecord", true, "const:nil", tTop, "const:true"),
+	}, "digest header parses, record size readable, 0 < record size <= maxRecordSize, empty stream matches SHA-256(0x00)")
+	e.R.Floor("REJECT", 4)
 	e.R.Floor("ORDER", 8)
 	e.R.Floor("TABLE", 80)
 	e.R.Floor("GATE", 5)
@@ -226,7 +237,7 @@ func clampPhi(e *Env, enc *ssa.Function) {
 	for _, b := range enc.Blocks {
 		for _, in := range b.Instrs {
 			ph, ok := in.(*ssa.Phi)
-			if !ok || ph.Comment != "high" {
+			if !ok || prov.CanonLocal(ph.Parent(), ph.Comment) != "high" {
 				continue
 			}
 			okk := len(ph.Edges) == 2
